@@ -374,7 +374,11 @@ func (r *resolver) applyDeviation(y *Module, d *Deviation) error {
 			if hasType.HasDefault() {
 				return fmt.Errorf("default already set on %s", d.Ident())
 			}
-			for _, deflt := range d.Add.Default() {
+			defaults := d.Add.Default()
+			if _, multi := hasType.(HasDefaultValues); !multi && len(defaults) > 1 {
+				return fmt.Errorf("only supports single default %s", d.Ident())
+			}
+			for _, deflt := range defaults {
 				hasType.addDefault(deflt)
 			}
 		}
